@@ -93,14 +93,15 @@ Definition c10_project_sx (p : proj) (plain_text zod_text : str) : sx :=
    only) and d (parameter and a channel), as the channel of command e; command u takes S (and the
    enum K and the member-less struct Z when requested) so that they are emitted. [ct] is the structure the implementation read
    from the channel's message type text. *)
-Definition tcase_proj (m : mapping) (t : tstruct) (opt : bool) (with_enum with_unit : bool) (ct : tstruct) : proj :=
-  let mem := {| m_key := L "p"; m_opt := opt; m_ty := t |} in
-  {| p_types := [DStruct {| s_name := L "S"; s_fields := [{| m_key := L "f"; m_opt := opt; m_ty := t |}] |}] ++
-                (if with_enum then [DEnum {| e_name := L "K"; e_variants := [L "A"; L "B"] |}] else []) ++
+Definition tcase_proj (m : mapping) (t : tstruct) (opt : bool) (with_enum with_unit : bool) (ct : tstruct)
+    (fk pk ck lit : str) : proj :=
+  let mem := {| m_key := pk; m_opt := opt; m_ty := t |} in
+  {| p_types := [DStruct {| s_name := L "S"; s_fields := [{| m_key := fk; m_opt := opt; m_ty := t |}] |}] ++
+                (if with_enum then [DEnum {| e_name := L "K"; e_variants := [L "A"; lit] |}] else []) ++
                 (if with_unit then [DStruct {| s_name := L "Z"; s_fields := [] |}] else []);
      p_cmds := [{| c_tname := L "C"; c_params := [mem]; c_chans := [] |};
-                {| c_tname := L "D"; c_params := [mem]; c_chans := [(L "ch", ct)] |};
-                {| c_tname := L "E"; c_params := []; c_chans := [(L "ch", ct)] |};
+                {| c_tname := L "D"; c_params := [mem]; c_chans := [(ck, ct)] |};
+                {| c_tname := L "E"; c_params := []; c_chans := [(ck, ct)] |};
                 {| c_tname := L "U"; c_params := {| m_key := L "s"; m_opt := false; m_ty := TCustom (L "S") |} ::
                                                   (if with_enum then [{| m_key := L "k"; m_opt := false; m_ty := TCustom (L "K") |}] else []) ++
                                                   (if with_unit then [{| m_key := L "z"; m_opt := false; m_ty := TCustom (L "Z") |}] else []);
@@ -129,4 +130,4 @@ Definition c10_string_oracle_sx (plain_s ziface_s zfield_s zparam_s : str) : sx 
   end.
 
 Definition c10_dom (m : mapping) (t : tstruct) : bool := map_ok m && dom t.
-Definition c10_structure (r : rty) : option tstruct := parse_type_structure (tts r).
+Definition c10_structure (r : rty) : option tstruct := Some (structure_of r).
